@@ -449,8 +449,53 @@ def lockstep(ctx, bin_path, drv, cases_file, tag="", env=None, drv_args=(), impl
     return ok, bad
 
 
+def lockstep_sharded(ctx, bin_path, drv, cases, nshards=16, env=None, drv_args=(), impl_args=(), timeout=1800,
+                     tag=""):
+    """Splits the case list round-robin into shards that run in parallel.  Returns
+    (ok, bad, digests) where digests maps case id -> digest line of the driver (if any)."""
+    from concurrent.futures import ThreadPoolExecutor
+    nshards = max(1, min(nshards, len(cases)))
+    # balance by op count
+    order = sorted(range(len(cases)), key=lambda i: -len(cases[i][1]))
+    shards = [[] for _ in range(nshards)]
+    load = [0] * nshards
+    for i in order:
+        k = load.index(min(load))
+        shards[k].append(cases[i])
+        load[k] += len(cases[i][1]) + 5
+
+    def one(k):
+        f = os.path.join(ctx.workdir, f"cases{tag}-{k}.txt")
+        write_cases(f, shards[k])
+        impl_file = os.path.join(ctx.workdir, f"impl{tag}-{k}.txt")
+        verdict_file = os.path.join(ctx.workdir, f"verdict{tag}-{k}.txt")
+        restarts = run_impl(bin_path, f, impl_file, env=env, timeout=timeout, extra_args=impl_args)
+        ok, bad, stats = run_driver(drv, impl_file, verdict_file, timeout=timeout, args=drv_args)
+        dig = {}
+        for l in open(verdict_file):
+            if l.startswith("D "):
+                t = l.split()
+                dig[t[1]] = t[2]
+        try:
+            os.remove(impl_file)
+        except OSError:
+            pass
+        return ok, bad, stats, restarts, dig
+
+    ok_total, bad_total, digests = 0, [], {}
+    with ThreadPoolExecutor(max_workers=nshards) as ex:
+        for ok, bad, stats, restarts, dig in ex.map(one, range(nshards)):
+            ok_total += ok
+            bad_total += bad
+            digests.update(dig)
+            for k2, v in stats.items():
+                ctx.add_stat(k2, v)
+            ctx.add_stat("restarts", restarts)
+    return ok_total, bad_total, digests
+
+
 def shrink_case(ctx, bin_path, drv, header, ops, want_kind, env=None, drv_args=(), impl_args=(), budget=150,
-                protect=lambda op: False):
+                protect=lambda op: False, accept=None):
     """ddmin over the op list of one case; keeps a candidate iff the verdict is still bad
     with the same kind."""
     tmp = os.path.join(ctx.workdir, "shrink.txt")
@@ -465,7 +510,7 @@ def shrink_case(ctx, bin_path, drv, header, ops, want_kind, env=None, drv_args=(
         except Exception:
             return None
         for cid, msg in bad:
-            if f"kind={want_kind}" in msg:
+            if f"kind={want_kind}" in msg and (accept is None or accept(msg)):
                 return msg
         return None
 
